@@ -185,8 +185,9 @@ PoolMore == <<
 Pool == IF Tier = "quick" THEN PoolQuick ELSE PoolQuick \o PoolMore
 MappedKids == << c5, c2 >>            \* wrapper-free children a user may pre-assign
 Redeclarable == << c1, c2, c5 >>      \* ... or re-declare after the mapper has hoisted them
-\* the names a user declares: one of his own, and one that looks like a generated candidate
-MappedNames == << "m0", "_cse_u_2" >>
+\* the names a user declares: one of his own, and (thorough / simulation) one that looks
+\* like a generated candidate
+MappedNames == IF Tier = "quick" THEN << "m0" >> ELSE << "m0", "_cse_u_2" >>
 MaxGen == IF Tier = "tiny" THEN 2 ELSE IF Tier = "sim" THEN 6 ELSE 3
 MaxMappers == IF Tier = "sim" THEN 4 ELSE 2
 Hows == {"copy", "ctor"}
